@@ -297,7 +297,7 @@ func (f *Facts) transferBlock(b *ssa.BasicBlock, cur *pstate, stop ssa.Instructi
 func (f *Facts) addCallFacts(cur *pstate, cc *ssa.CallCommon, prefix string) {
 	name := calleeName(cc)
 	if name == "" {
-		return
+		name = "dyn:" + f.tr.term(cur, cc.Value, 0)
 	}
 	if f.keepLit(prefix + name) {
 		cur.lits[prefix+name] = true
@@ -401,6 +401,20 @@ func (f *Facts) propagate(b *ssa.BasicBlock, cur *pstate, isBack func(u, v *ssa.
 				push(b.Succs[1], cur.clone())
 			}
 			return
+		}
+		if bo, ok := cond.(*ssa.BinOp); ok {
+			if _, isCmp := flipOp[bo.Op]; isCmp {
+				a, ok1 := constInt(resolve(cur, bo.X))
+				bb, ok2 := constInt(resolve(cur, bo.Y))
+				if ok1 && ok2 {
+					if evalCmp(bo.Op, a, bb) {
+						push(b.Succs[0], cur.clone())
+					} else {
+						push(b.Succs[1], cur.clone())
+					}
+					return
+				}
+			}
 		}
 		for si, succ := range b.Succs {
 			s := cur.clone()
@@ -625,7 +639,11 @@ func (f *Facts) Calls(re *regexp.Regexp) []ssa.CallInstruction {
 	for _, b := range f.fn.Blocks {
 		for _, ins := range b.Instrs {
 			if ci, ok := ins.(ssa.CallInstruction); ok {
-				if n := calleeName(ci.Common()); n != "" && re.MatchString(n) {
+				n := calleeName(ci.Common())
+				if n == "" {
+					n = "dyn:" + f.tr.term(nil, ci.Common().Value, 0)
+				}
+				if re.MatchString(n) {
 					out = append(out, ci)
 				}
 			}
@@ -676,6 +694,23 @@ type termRenderer struct {
 	allocOrd map[*ssa.Alloc]int
 	// singleStore: render an Alloc that is stored exactly once (captured parameter copies) as the stored value.
 	singleStore bool
+	// callOrd: ordinal of calls to impure producers (Stack.pop, intPool.get) so that distinct results get distinct terms
+	callOrd map[*ssa.Call]int
+}
+
+func impureProducer(c *ssa.CallCommon) string {
+	f := c.StaticCallee()
+	if f == nil || f.Signature.Recv() == nil {
+		return ""
+	}
+	r := f.Signature.Recv().Type().String()
+	if strings.HasSuffix(r, "vm.Stack") && f.Name() == "pop" {
+		return "pop"
+	}
+	if strings.HasSuffix(r, "vm.intPool") && f.Name() == "get" {
+		return "get"
+	}
+	return ""
 }
 
 func newTermRenderer(fn *ssa.Function) *termRenderer {
@@ -687,6 +722,18 @@ func newTermRenderer(fn *ssa.Function) *termRenderer {
 				ts := typeShort(a.Type())
 				acnt[ts]++
 				t.allocOrd[a] = acnt[ts]
+			}
+		}
+	}
+	t.callOrd = map[*ssa.Call]int{}
+	pcnt := map[string]int{}
+	for _, b := range fn.Blocks {
+		for _, ins := range b.Instrs {
+			if call, ok := ins.(*ssa.Call); ok {
+				if k := impureProducer(&call.Call); k != "" {
+					pcnt[k]++
+					t.callOrd[call] = pcnt[k]
+				}
 			}
 		}
 	}
@@ -751,7 +798,11 @@ func (t *termRenderer) term(s *pstate, v ssa.Value, d int) string {
 	case *ssa.Extract:
 		return t.term(s, x.Tuple, d) + "#" + fmt.Sprint(x.Index)
 	case *ssa.Call:
-		return t.callTerm(s, &x.Call, d)
+		r := t.callTerm(s, &x.Call, d)
+		if o := t.callOrd[x]; o > 1 {
+			r += fmt.Sprintf("~%d", o)
+		}
+		return r
 	case *ssa.Phi:
 		return "phi:" + x.Comment
 	case *ssa.Slice:
@@ -792,8 +843,8 @@ func (t *termRenderer) term(s *pstate, v ssa.Value, d int) string {
 		}
 		return t.term(s, x.X, d+1) + "[" + lo + ":" + hi + "]"
 	case *ssa.Alloc:
-		if t.singleStore {
-			if v := singleStoredValue(x); v != nil {
+		if v := singleStoredValue(x); v != nil {
+			if _, isParam := v.(*ssa.Parameter); isParam || t.singleStore {
 				return t.term(s, v, d+1)
 			}
 		}
@@ -1301,10 +1352,18 @@ func instrDominates(a, b ssa.Instruction) bool {
 func callSites(fn *ssa.Function, re string) []ssa.CallInstruction {
 	r := regexp.MustCompile(re)
 	var out []ssa.CallInstruction
+	var tr *termRenderer
 	for _, b := range fn.Blocks {
 		for _, ins := range b.Instrs {
 			if ci, ok := ins.(ssa.CallInstruction); ok {
-				if n := calleeName(ci.Common()); n != "" && r.MatchString(n) {
+				n := calleeName(ci.Common())
+				if n == "" {
+					if tr == nil {
+						tr = newTermRenderer(fn)
+					}
+					n = "dyn:" + tr.term(nil, ci.Common().Value, 0)
+				}
+				if r.MatchString(n) {
 					out = append(out, ci)
 				}
 			}
